@@ -114,8 +114,12 @@ impl GroupScen {
         for _ in 0..10_000 {
             match self.q::<MemberListResponse>(QueryMsg::ListMembers { start_after: cursor.clone(), limit }) {
                 Some(p) if !p.members.is_empty() => {
-                    cursor = Some(p.members.last().unwrap().addr.clone());
+                    let next = Some(p.members.last().unwrap().addr.clone());
                     out.extend(p.members);
+                    if next == cursor {
+                        break; // no progress (a defect in the code under test): do not walk forever
+                    }
+                    cursor = next;
                 }
                 _ => break,
             }
